@@ -90,7 +90,7 @@ fn gen_text(rng: &mut Rng, lib: &[Pkg], names: &mut Names) -> Generated {
     let mut worlds: Vec<WorldInfo> = Vec::new();
     for w in 0..rng.range(1, 3) {
         let wname = format!("w{w}");
-        let mut both = |wit: &mut String, wac: &mut String, a: &str, b: &str| {
+        let both = |wit: &mut String, wac: &mut String, a: &str, b: &str| {
             wit.push_str(a);
             wac.push_str(b);
         };
